@@ -13,15 +13,26 @@ Every run:
   produced with the real code and `as_text()` is compared byte for byte with
   the model's text (or the exception kind).  Pure streams tie `str.splitlines`,
   `_escape_path` and the `list_files` order to the model on alphabets aimed at
-  every delimiter.  ~10 % malformed records (whitespace in ids, linebreaks in
+  every delimiter; `msgCanon` / `joinNl` (hypothesis and inverse of
+  splitlines_injective_canon) are tied to `str.splitlines` / `"\n".join` the same
+  way.  `as_short_text()` of every class is compared with the model's `shortText`
+  (sha := digest of the real text).  Wild (in-memory) records also hold
+  tree-reference entries; `timezone=None` occurs in every stream.  A dozen records
+  per run (80 thorough) are built through a REAL `WorkingTree.commit()` in 2a and
+  pack-0.92 (first commit or on top of another one, timestamps with more than 3
+  decimals): the stored revision + inventory are read back and tied like the
+  others, the "commit rounds to 3 decimals" assumption is checked, the testament
+  must equal the one of the same data rebuilt in memory and must attest the
+  committed contents / exec bits / timestamp.  ~10 % malformed records (whitespace in ids, linebreaks in
   committer/paths/targets, missing sha1/target) are compared on error kind.
 * Oracle (model independent) -- (a) the same record gives byte-identical
   testaments in 2a, pack-0.92, in memory and under a second storage order, and
   `as_short_text()` is header + revision id + sha1(as_text()); (b) every
   single-field perturbation of an attested field (path, content, exec bit,
   symlink target, file id, message, committer, timestamp, timezone, parents,
-  revision properties, revision id, added/removed entry ...) must change the
-  testament of every class.
+  revision properties, revision id, added/removed entry ...) and two two-field
+  swaps (two entries exchange their file ids / their paths) must change the
+  testament (long AND short form) of every class.
 
 Findings (see `_classify`): collisions that the frozen text format has by
 construction are reported with a family slug computed from the concrete pair of
@@ -49,6 +60,15 @@ Mutants this was built against (scratch worktree, breezy/bzr/testament.py):
   M9  `contains_whitespace(ie.file_id)` check dropped ........... T2 (malformed stream)
   M10 the two `.replace` calls of `_escape_path` swapped ........ T2
   harmless: message loop as list comprehension; `sorted(set(parent_ids))` -> clean
+Improvement round:
+  M11 as_short_text: `short_header` -> `long_header` .............. oracle (short form) + T2 (short)
+  M12 as_short_text: digest of `as_text_lines()[:-1]` ............. oracle (short form) + T2 (short)
+  M13 `rev.timezone or 0` -> `rev.timezone` (None) ................ oracle: "producing the testament raised TypeError"
+        (timezone=None is generated in every stream; unexpected exceptions are violations, not crashes)
+  M14 tree-reference entries skipped in `_get_entries` ............ oracle (perturbation of a tree-reference entry) + T2
+  harmless: repository.py CommitBuilder `round(timestamp, 3)` dropped -> clean: the 2a and pack-0.92
+        serialisers round to 3 decimals themselves (a Revision object holding 1.9996 has "timestamp: 1"
+        before it is stored and "timestamp: 2" after; testaments are only ever made from stored revisions)
 """
 import hashlib
 
@@ -60,6 +80,11 @@ THEOREMS = [
     "testament_sensitive_partial",
     "testament_sensitive_scalars",
     "testament_sensitive_raw_partial",
+    "splitlines_injective_canon",
+    "short_text_determines_text",
+    "short_text_injective_partial",
+    "short_text_sensitive_partial",
+    "short_text_storage_order_independent",
     "splitlines_no_newline",
     "escape_inj_iff",
     "entryLine_inj",
@@ -159,7 +184,7 @@ def gen_record(rng, wild=False):
         if fid in fid_used:
             continue
         fid_used.add(fid)
-        k = rng.choice("fffddl")
+        k = rng.choice("fffddlt" if wild else "fffddl")   # tree references: in memory only (2a / pack-0.92 refuse them)
         e = dict(path=path, kind=k, fid=fid, content="", target="",
                  rev=rid if rng.random() < 0.5 else _ident(rng, "rev-"), exec=False)
         if k == "f":
@@ -167,7 +192,7 @@ def gen_record(rng, wild=False):
             e["exec"] = rng.random() < 0.3
         elif k == "l":
             e["target"] = _word(rng, NAME_ALPH + ["/", "/", " "], 1, 5)
-        else:
+        elif k == "d":
             dirs.append(path)
         entries.append(e)
     props = []
@@ -185,8 +210,8 @@ def gen_record(rng, wild=False):
     ts = rng.choice([0, 1, -1, 999, 1000, 1001, -999, -1000, -1500, 1700,
                      rng.randint(-10**7, 10**7), rng.randint(0, 2 * 10**12)])
     tz = rng.choice([0, 3600, -3600, 19800, -34200, rng.randint(-50000, 50000)])
-    if wild and rng.random() < 0.2:
-        tz = None
+    if rng.random() < (0.2 if wild else 0.08):
+        tz = None               # `rev.timezone or 0`; both formats store None
     parents = []
     for _ in range(rng.choice([0, 1, 1, 2, 3])):
         p = _ident(rng, rng.choice(["rev-", "p", ""]))
@@ -234,7 +259,7 @@ def _b(s):
 
 
 def build_inventory(rec, with_root_rev=True):
-    from bzrformats.inventory import Inventory, InventoryDirectory, InventoryFile, InventoryLink
+    from bzrformats.inventory import Inventory, InventoryDirectory, InventoryFile, InventoryLink, TreeReference
     rid = _b(rec["rid"])
     inv = Inventory(root_id=None, revision_id=rid)
     inv.add(InventoryDirectory(_b(rec["root_id"]), "", None, revision=_b(rec["root_rev"])))
@@ -253,6 +278,8 @@ def build_inventory(rec, with_root_rev=True):
                 sha = _sha(e["content"])
             ie = InventoryFile(fid, name, pid, revision=rev, text_sha1=_b(sha) if sha != "" else None,
                                text_size=len(_b(e["content"])), executable=bool(e["exec"]))
+        elif e["kind"] == "t":
+            ie = TreeReference(fid, name, pid, revision=rev, reference_revision=b"nested-" + rev)
         else:
             ie = InventoryLink(fid, name, pid, revision=rev,
                                symlink_target=e["target"] if e["target"] != "" else None)
@@ -294,7 +321,7 @@ def _stub_tree(rec):
                     continue
                 yield path, "V", ie.kind, ie
 
-    kinds = {"f": "file", "d": "directory", "l": "symlink"}
+    kinds = {"f": "file", "d": "directory", "l": "symlink", "t": "tree-reference"}
     items = [("", types.SimpleNamespace(kind="directory", file_id=_b(rec["root_id"]), revision=_b(rec["root_rev"]),
                                         executable=False, text_sha1=None, symlink_target=None))]
     for e in rec["entries"]:
@@ -326,7 +353,7 @@ def make_testaments(rec, mode):
         for v, cls in classes.items():
             try:
                 out[v] = cls(rev, tree)
-            except (ValueError, AssertionError) as e:
+            except Exception as e:   # noqa: BLE001 - classified by render()
                 out[v] = e
         return out, None
     rev = build_revision(rec)
@@ -338,7 +365,7 @@ def make_testaments(rec, mode):
         for v, cls in classes.items():
             try:
                 out[v] = cls(rev, tree)
-            except (ValueError, AssertionError) as e:
+            except Exception as e:   # noqa: BLE001 - classified by render()
                 out[v] = e
         return out, None
     repo = _new_repo(mode)
@@ -362,7 +389,7 @@ def make_testaments(rec, mode):
     for v, cls in classes.items():
         try:
             out[v] = cls.from_revision(repo, rid)
-        except (ValueError, AssertionError) as e:
+        except Exception as e:   # noqa: BLE001 - classified by render()
             out[v] = e
     stored = repo.get_revision(rid)
     faithful = True
@@ -394,6 +421,8 @@ def render(t):
         return "E:Value", None
     if isinstance(t, AssertionError):
         return "E:Assert", None
+    if isinstance(t, Exception):
+        return "E:Unexpected:" + type(t).__name__, None
     try:
         txt = t.as_text()
         short = t.as_short_text()
@@ -401,6 +430,8 @@ def render(t):
         return "E:Value", None
     except AssertionError:
         return "E:Assert", None
+    except Exception as e:   # noqa: BLE001 - no other exception is an outcome of the model: reported by _tie
+        return "E:Unexpected:" + type(e).__name__, None
     return txt, short
 
 
@@ -506,6 +537,8 @@ def perturb(rng, rec):
              "prop", "prop", "root_id", "add_entry"]
     if rec["entries"]:
         kinds += ["path", "path", "content", "exec", "target", "fid", "entry_rev", "remove_entry", "kind"] * 2
+    if len(rec["entries"]) >= 2:
+        kinds += ["swap_fid", "swap_path"] * 3
     resplit = [e for e in rec["entries"] if e["kind"] == "l" and " " in e["target"].strip(" ")
                and not any(o["path"].startswith(e["path"] + "/") for o in rec["entries"])]
     if resplit:
@@ -598,6 +631,19 @@ def perturb(rng, rec):
             if n in [p[0] for p in ps]:
                 return None
             ps.append([n, _text(rng, wild, 2)])
+    elif k in ("swap_fid", "swap_path"):
+        # two fields at once: two entries exchange their file ids / their paths (every other field stays)
+        pool = r["entries"] if k == "swap_fid" else \
+            [o for o in r["entries"] if not any(q["path"].startswith(o["path"] + "/") for q in r["entries"])]
+        if len(pool) < 2:
+            return None
+        a, b = rng.sample(pool, 2)
+        key = "fid" if k == "swap_fid" else "path"
+        a[key], b[key] = b[key], a[key]
+        if k == "swap_path":
+            # keep the parent-before-child storage order: the two records trade places in the list
+            i, j = [n for n, o in enumerate(r["entries"]) if o is a or o is b]
+            r["entries"][i], r["entries"][j] = r["entries"][j], r["entries"][i]
     elif k == "root_id":
         r["root_id"] = _edit(rng, r["root_id"], ID_ALPH)
         if r["root_id"] in [e["fid"] for e in r["entries"]]:
@@ -688,7 +734,10 @@ def perturb(rng, rec):
             else:
                 if any(o["path"].startswith(e["path"] + "/") for o in r["entries"]):
                     return None
-                e.update(kind="f", content="c")
+                if wild and rng.random() < 0.5:
+                    e.update(kind="t" if e["kind"] == "d" else "d")     # directory <-> tree-reference
+                else:
+                    e.update(kind="f", content="c")
     if r == rec or not _storable(r):
         return None
     return k, cls, r
@@ -821,10 +870,19 @@ def _observe(ctx, batch, rec, mode, tag):
         # testament matter): the precondition "same attested data" does not hold
         ctx.count("storage-not-faithful:%s:%s" % (mode, faithful))
         return None
+    return _tie(ctx, batch, rec, mode, tag, ts)
+
+
+def _tie(ctx, batch, rec, mode, tag, ts, case_extra=None):
+    """T2 lines (as_text and as_short_text of the three classes against the model run on `rec`) + the
+    short-form oracle for the testament objects `ts`"""
     res = {}
     for v in VARIANTS:
         res[v] = render(ts[v])
-        batch.add(dict(kind=tag, mode=mode, variant=v, rec=rec), model_line(rec, v), impl_out(res[v]))
+        case = dict(kind=tag, mode=mode, variant=v, rec=rec)
+        if case_extra:
+            case.update(case_extra)
+        batch.add(case, model_line(rec, v), impl_out(res[v]))
         txt, short = res[v]
         if isinstance(txt, bytes):
             # observe_at: as_short_text() must be header + revision id + sha1 of the text
@@ -832,12 +890,147 @@ def _observe(ctx, batch, rec, mode, tag):
                    "3": b"bazaar testament short form 3 strict\n"}[v]
             want = hdr + b"revision-id: " + _b(rec["rid"]) + b"\nsha1: " + hashlib.sha1(txt).hexdigest().encode() + b"\n"
             if short != want:
-                ctx.violation(dict(kind="short", mode=mode, variant=v, rec=rec),
+                ctx.violation(dict(case, kind="short"),
                               "as_short_text() is not header+revision-id+sha1(as_text()): %r" % (short,))
+            # T2 for the model's shortText (sha := the digest of the real text; the text itself is tied above)
+            batch.add(dict(case, kind=tag + "/short"),
+                      "short %s %s %s" % (v, x(hashlib.sha1(txt).hexdigest()), model_line(rec, v).split(" ", 2)[2]),
+                      "ok x" + short.hex())
             ctx.count("ok:v" + v)
         else:
             ctx.count(txt + ":v" + v)
+            if txt.startswith("E:Unexpected"):
+                ctx.violation(dict(case, kind="raise"), "producing the class-%s testament raised %s" % (v, txt[13:]))
     return res
+
+
+# --------------------------------------------------------------------------
+# records built through a real commit
+# --------------------------------------------------------------------------
+
+TS_EXTRA = [0.0, 0.0004, 0.0006, 0.00049999, 1e-7, 0.9996, 0.4995]
+
+
+def rec_from_repo(repo, rid):
+    """the record (same shape as gen_record's) of what the repository stores for `rid`"""
+    stored = repo.get_revision(rid)
+    inv = repo.get_inventory(rid)
+    rec = dict(rid=rid.decode("utf-8"), committer=stored.committer, ts_ms=int(round(stored.timestamp * 1000)),
+               tz=stored.timezone, parents=[p.decode("utf-8") for p in stored.parent_ids], message=stored.message,
+               root_id=None, root_rev=None, entries=[], props=[[k, v] for k, v in stored.properties.items()], wild=False)
+    kinds = {"file": "f", "directory": "d", "symlink": "l", "tree-reference": "t"}
+    for path, ie in inv.iter_entries():
+        if path == "":
+            rec["root_id"] = ie.file_id.decode("utf-8")
+            rec["root_rev"] = ie.revision.decode("utf-8")
+            continue
+        e = dict(path=path, kind=kinds[ie.kind], fid=ie.file_id.decode("utf-8"), content="", target="",
+                 rev=ie.revision.decode("utf-8"), exec=False)
+        if ie.kind == "file":
+            e["sha"] = (ie.text_sha1 or b"").decode("ascii")
+            e["exec"] = bool(ie.executable)
+        elif ie.kind == "symlink":
+            e["target"] = ie.symlink_target or ""
+        rec["entries"].append(e)
+    return rec, stored
+
+
+def commit_case(ctx, batch, case):
+    """build case['rec'] in a working tree of format case['fmt'], commit it for real (optionally on top of a
+    first commit), read the stored revision back and tie / check its testaments"""
+    import os
+    import shutil
+    from breezy.controldir import ControlDir, format_registry
+    rec, fmt = case["rec"], case["fmt"]
+    d = env.fresh_dir("wt")
+    wt = ControlDir.create_standalone_workingtree(d, format=format_registry.make_controldir(fmt))
+    try:
+        if case["two"]:
+            with open(os.path.join(d, "zz-first"), "wb") as f:
+                f.write(b"first\n")
+            wt.add(["zz-first"], ids=[b"zz-first-id"])
+            wt.commit("first", rev_id=b"first-rev", committer="F <f@x>", timestamp=5.0, timezone=0)
+        paths, ids = [], []
+        for e in rec["entries"]:
+            full = os.path.join(d, e["path"])
+            if e["kind"] == "d":
+                os.mkdir(full)
+            elif e["kind"] == "l":
+                os.symlink(e["target"], full)
+            else:
+                with open(full, "wb") as f:
+                    f.write(_b(e["content"]))
+                os.chmod(full, 0o755 if e["exec"] else 0o644)
+            paths.append(e["path"])
+            ids.append(_b(e["fid"]))
+        if paths:
+            wt.add(paths, ids=ids)
+        rid = _b(rec["rid"])
+        ts_in = rec["ts_ms"] / 1000.0 + case["extra"]
+        wt.commit(message=rec["message"], committer=rec["committer"], timestamp=ts_in, timezone=rec["tz"],
+                  revprops=dict((k, v) for k, v in rec["props"] if k), rev_id=rid, allow_pointless=True)
+        repo = wt.branch.repository
+        with repo.lock_read():
+            rec2, stored = rec_from_repo(repo, rid)
+            # the assumption behind the integer-millisecond model of "%d" % timestamp
+            if stored.timestamp != round(stored.timestamp, 3):
+                ctx.mismatch(dict(case, kind="commit-rounding"), repr(stored.timestamp),
+                             "commit stores timestamps rounded to 3 decimals (%r given)" % ts_in)
+            ts = {}
+            for v, cls in _classes().items():
+                try:
+                    ts[v] = cls.from_revision(repo, rid)
+                except Exception as e:   # noqa: BLE001 - classified by render()
+                    ts[v] = e
+            res = _tie(ctx, batch, rec2, "commit:" + fmt, "commit", ts, case_extra=dict(commit=case))
+        ctx.count("commit:%s:%s" % (fmt, "second" if case["two"] else "first"))
+        # oracle 1: same attested data rebuilt in memory -> identical testaments
+        mem = make_testaments(rec2, "mem")[0]
+        for v in VARIANTS:
+            if render(mem[v]) != res[v]:
+                ctx.violation(dict(case, kind="commit-det", variant=v),
+                              "testament of the committed revision differs from the testament of the same data built "
+                              "in memory (class %s): %r != %r" % (v, res[v][0], render(mem[v])[0]))
+        # oracle 2: what was committed is what is attested (content digests, exec bits, targets, metadata)
+        for v in VARIANTS:
+            txt = res[v][0]
+            if not isinstance(txt, bytes):
+                ctx.violation(dict(case, kind="commit-raise", variant=v), "testament of a committed revision raised %s" % txt)
+                continue
+            lines = txt.split(b"\n")
+            for e in rec["entries"]:
+                if e["kind"] == "f":
+                    want = b" " + _b(e["fid"]) + b" " + _sha(e["content"]).encode()
+                    tail = (b" yes" if e["exec"] else b" no") if v != "1" else b""
+                    ok = any(want in l and l.endswith(tail) for l in lines)
+                elif e["kind"] == "l":
+                    ok = any((b" " + _b(e["fid"]) + b" ") in l and l.startswith(b"  symlink ") for l in lines)
+                else:
+                    ok = any(l.startswith(b"  directory ") and (b" " + _b(e["fid"])) in l for l in lines)
+                if not ok:
+                    ctx.violation(dict(case, kind="commit-attest", variant=v),
+                                  "committed entry %r (%s) is not attested by the class-%s testament" % (e["path"], e["kind"], v))
+                    break
+            if (b"timestamp: %d" % int(round(ts_in, 3))) not in lines:
+                ctx.violation(dict(case, kind="commit-attest", variant=v),
+                              "commit timestamp %r is attested as %r" % (ts_in, [l for l in lines if l.startswith(b"timestamp")]))
+        return res
+    finally:
+        shutil.rmtree(d, ignore_errors=True)
+
+
+def one_commit(ctx, batch, rng, i):
+    rec = gen_record(rng, wild=False)
+    if not rec["committer"].strip():
+        rec["committer"] = "C <c@x>"
+    rec["props"] = [p for p in rec["props"] if p[0]]
+    rec["parents"] = []
+    case = dict(kind="commit", fmt=("2a", "pack-0.92")[i % 2], two=bool(i % 4 >= 2), extra=rng.choice(TS_EXTRA), rec=rec)
+    ctx.case(case, nontrivial=True)
+    try:
+        commit_case(ctx, batch, case)
+    except Exception as e:   # noqa: BLE001 - commit refusing a generated record is not a testament matter
+        ctx.count("commit-refused:" + type(e).__name__)
 
 
 def _det_oracle(ctx, rec, what, ref, other, mode_a, mode_b):
@@ -973,6 +1166,23 @@ def pure_streams(ctx, rng, n):
         outs.append(xl([x(l) for l in s.splitlines()]))
         ctx.case(cases[-1], nontrivial=len(s.splitlines()) != 1)
         ctx.count("pure:splitlines")
+    calph = ["a", "b", " ", "\n", "\n", "\n", "", "", "\r", "\x0b", NEL, LS, "\x1c", "\t"]
+    for i in range(n // 2):
+        s = "".join(rng.choice(calph) for _ in range(rng.randint(0, 7)))
+        if i % 3:
+            s = s.replace("\r", "").replace("\x0b", "").replace(NEL, "").replace(LS, "").replace("\x1c", "").rstrip("\n")
+        canon = all(c == "\n" or len(("a" + c + "b").splitlines()) == 1 for c in s) and not s.endswith("\n")
+        cases.append(dict(kind="canon", s=s))
+        lines.append("canon " + x(s))
+        outs.append("T" if canon else "F")
+        cases.append(dict(kind="join", s=s))
+        lines.append("join " + xl([x(l) for l in s.splitlines()]))
+        outs.append(x("\n".join(s.splitlines())))
+        ctx.case(cases[-1], nontrivial=canon and "\n" in s)
+        ctx.count("pure:canon:%s" % canon)
+        # theorem splitlines_injective_canon on the real str.splitlines: nothing is lost on canonical texts
+        if canon and "\n".join(s.splitlines()) != s:
+            ctx.violation(cases[-1], "canonical text %r is not recovered from its splitlines()" % s)
     palph = ["a", " ", "\\", "/", ".", "b", "\t", EACUTE]
     for i in range(n):
         s = "".join(rng.choice(palph) for _ in range(rng.randint(0, 6)))
@@ -1008,6 +1218,8 @@ def run(ctx):
                 ctx.count("malformed:" + k)
         if len(batch.lines) > 3000:
             batch.flush()
+    for i in range(ctx.pick(12, 80)):
+        one_commit(ctx, batch, rng, i)
     batch.flush()
 
 
@@ -1030,8 +1242,11 @@ def replay(ctx, case):
         for m in ms[1:]:
             _det_oracle(ctx, rec, "format", obs[ms[0]], obs[m], ms[0], m)
         out["impl"] = {m: {v: repr(obs[m][v][0]) for v in VARIANTS} for m in ms}
-    elif case.get("kind") in ("splitlines", "esc"):
+    elif case.get("kind") in ("splitlines", "esc", "canon", "join"):
         pass
+    elif "commit" in case or str(case.get("kind", "")).startswith("commit"):
+        res = commit_case(ctx, batch, case.get("commit", case))
+        out["impl"] = {v: repr(res[v][0]) for v in VARIANTS} if res else None
     else:
         rec = case["rec"]
         mode = case.get("mode", "mem")
